@@ -120,7 +120,10 @@ def make_ob(name, names, build, sampler, seed):
     def replay(w):
         pt = (w or {}).get("point") or {}
         K = build({n: float(pt[n]) for n in names})
-        tot = sum(np.conj(np.asarray(k)).T @ np.asarray(k) for k in K)
+        with np.errstate(all="ignore"):
+            tot = sum(np.conj(np.asarray(k)).T @ np.asarray(k) for k in K)
+        if not np.all(np.isfinite(tot)):
+            return dict(confirmed=True, observed="non-finite Kraus operators (square root of a negative radicand)", point=pt)
         err = float(np.max(np.abs(tot - np.eye(tot.shape[0]))))
         return dict(confirmed=bool(err > 1e-9), max_abs_deviation=err, point=pt)
 
@@ -138,7 +141,9 @@ def make_ob(name, names, build, sampler, seed):
             return Outcome(UNDECIDED, "trace", f"trace left the fragment: {ex}", extra=dict(standin="passed", standin_points=64))
         env = {n: z3.Real(n) for n in names}
         env["epsilon"] = z3.Real("epsilon")
-        pc = [rel_to_z3(g, env) for g in guards] + [env["epsilon"] > 0, env["epsilon"] <= z3.RealVal("1/1000000")]
+        from fractions import Fraction
+        eps_val = Fraction(float(ch._SQRT_STABILITY_EPS)).limit_denominator(10 ** 30)  # pylint: disable=protected-access
+        pc = [rel_to_z3(g, env) for g in guards] + [env["epsilon"] == z3.RealVal(str(eps_val))]
         if name.startswith("PauliError"):
             # the probability domain of PauliError is validated in its constructor, not in the kernel: documented domain
             pc += [env["p"] >= 0, env["p"] <= 1]
